@@ -83,6 +83,18 @@ def register(op):
             out.append([kind, (c is first) if c is not None else None, ckey(c) if c is not None else None,
                         (hash(c) == hash(first)) if c is not None else None, (c == first) if c is not None else None,
                         c.turns if c is not None else None, c.name if c is not None else None])
+        if use_sub and first is not None and (base_obj != first or hash(base_obj) != hash(first) or len({base_obj, first}) != 1):
+            raise RuntimeError("a base-class and a subclass object of the same complex (different names) differ in == / hash")
+        if first is not None:
+            # equality is about canonical forms, not about object identity: an object that outlived a cleared registry equals
+            # the object created afterwards from another rotation
+            clear_singletons(K)
+            seq_, struct_ = rots[order[-1]]
+            again = K(doms(seq_), list(struct_))
+            if again is first or not (again == first) or (again != first) or hash(again) != hash(first) or ckey(again) != ckey(first):
+                raise RuntimeError("an object created after clear_singletons does not equal the surviving object of the same complex")
+            clear_singletons(K)
+            del again
         if first is not None:
             # canonical form, hash and membership in a set do not move with the representation
             h0, cf0, held = hash(first), ckey(first), {first}
